@@ -26,6 +26,9 @@ def _taint(v: Any, params: Dict[int, str], depth: int = 0) -> Set[str]:
     if depth > 8 or not isinstance(v, Sym):
         return set()
     if isinstance(v, SObj):
+        lo = v.meta.get("list_of")
+        if isinstance(lo, SObj) and lo.kinds and lo.kinds <= {"TAGLIST"}:
+            return set()   # induction hypothesis: the storage (.data) of any TagList holds normalised nodes only
         if v.uid in params:
             return {params[v.uid]}
         c = v.meta.get("call")
@@ -178,6 +181,9 @@ def check(ctx: Ctx) -> None:
             san_idx = [i for i, e in enumerate(l.effects) if e.kind == "call" and getattr(e.target, "qual", "") == SAN]
             for i, e, val in sinks:
                 t = _taint(val, params)
+                if t and isinstance(val, SObj) and val.kinds and val.kinds <= {"TAGLIST"} and (
+                        e.kind == "store_slice" or str(e.key).split(".")[-1] in ("extend", "__iadd__")):
+                    t = set()   # element-wise splice of a TagList: its elements are normalised nodes (induction hypothesis)
                 ctx.check(not t, "C14.taint", f"operation `{op}` ({ci.name}.{meth}) stores only normalised nodes", where,
                           f"{e.kind} {e.key if e.kind != 'store_attr' else 'data'} := {short(val)}",
                           f"`{op}` writes argument `{sorted(t)[0] if t else ''}` into the list without passing it through {SAN}: "
